@@ -419,7 +419,14 @@ func (c *nsClient) exec(op c02Op) *nsViolation {
 	case "create":
 		var verf [8]byte
 		copy(verf[:], "verifier")
-		res = s.nfs(nfsx.ProcCreate, nfsx.ArgsCreate(fh, op.Name, op.How, nfsx.Sattr{}, verf))
+		var csa nfsx.Sattr
+		if op.SetSize {
+			csa.Size = nfsx.U64p(op.Size)
+		}
+		if op.SetMode {
+			csa.Mode = nfsx.U32p(op.Mode & 0777)
+		}
+		res = s.nfs(nfsx.ProcCreate, nfsx.ArgsCreate(fh, op.Name, op.How, csa, verf))
 	case "mkdir":
 		res = s.nfs(nfsx.ProcMkdir, nfsx.ArgsMkdir(fh, op.Name, nfsx.Sattr{}))
 	case "symlink":
